@@ -3,7 +3,7 @@ package main
 // C36: code completion returns exactly the matching in-scope names, sorted and unique.
 //
 // Ops (tokens separated by one blank; see lean/Drv/C36.lean for the grammar):
-//   reset / type / itype / method / var / func / const / import / complete
+//   reset / type / itype / method / var / func / const / import / complete (cursor = index in runes)
 // The generator builds random interpreter states through real declarations and describes every
 // declaration to the Lean model in the op itself.  The oracle for `complete` is independent of
 // the completion code: a linear scan over the names the harness declared (+ Go keywords from the
@@ -593,7 +593,7 @@ func c36exec(op string) Result {
 		w.binds[name] = src
 		w.names[name] = true
 		return decl(src)
-	case "complete", "completeb":
+	case "complete":
 		return c36complete(w, ts)
 	}
 	return Result{Out: "bad-op"}
@@ -734,34 +734,20 @@ func c36complete(w *c36world, ts []string) Result {
 		tag("viol-" + key)
 	}
 
-	// --- the cursor: an index in runes as liner defines it (op "complete"), or a byte offset on a rune
-	//     boundary as the code reads it (op "completeb": same checks on non-ASCII lines under the other contract)
+	// --- the cursor: an index in runes, as liner defines it
 	rs := []rune(line)
-	var before, after string
-	if ts[0] == "completeb" {
-		cur := pos
-		if cur > len(line) {
-			cur = len(line)
-		}
-		before, after = line[:cur], line[cur:]
-		tag("byte-cursor")
-	} else {
-		cur := pos
-		if cur > len(rs) {
-			cur = len(rs)
-			tag("pos>len")
-		}
-		if cur < 0 {
-			tag("pos<0")
-			cur = 0
-		}
-		before, after = string(rs[:cur]), string(rs[cur:])
-		if len(before) != cur {
-			tag("nonascii-before-cursor")
-			if cur < len(line) && !utf8.RuneStart(line[cur]) {
-				tag("midrune")
-			}
-		}
+	cur := pos
+	if cur > len(rs) {
+		cur = len(rs)
+		tag("pos>len")
+	}
+	if cur < 0 {
+		tag("pos<0")
+		cur = 0
+	}
+	before, after := string(rs[:cur]), string(rs[cur:])
+	if len(before) != cur {
+		tag("nonascii-before-cursor")
 	}
 	nonascii := len(before) != utf8.RuneCountInString(before)
 	if panicked {
@@ -770,7 +756,7 @@ func c36complete(w *c36world, ts []string) Result {
 	}
 	// --- (1) reassembly: head is a prefix of the text before the cursor, tail is the text after it
 	if tail != after || !strings.HasPrefix(before, head) {
-		if nonascii && ts[0] == "complete" {
+		if nonascii {
 			viol("cursor-is-a-rune-index", fmt.Sprintf("liner passes the cursor in runes: text before the cursor is %q, after it %q; head+tail must rebuild the line around the cursor", before, after))
 		} else {
 			viol("head-tail-not-line", fmt.Sprintf("text before the cursor is %q, after it %q", before, after))
@@ -1501,12 +1487,7 @@ func c36genWorldOps(r *rand.Rand, emit func(string), nlines int, emitted map[str
 	}
 	for i := 0; i < nlines; i++ {
 		line, pos := g.genLine(r)
-		opn := "complete"
-		if rl := []rune(line); pos >= 0 && pos <= len(rl) && len(string(rl[:pos])) != pos && r.Intn(2) == 0 {
-			// non-ASCII text before the cursor: also exercise the byte-offset reading of pos
-			opn, pos = "completeb", len(string(rl[:pos]))
-		}
-		emit(fmt.Sprintf("%s %d %s # %s", opn, pos, c36encodeLine(line), strconv.QuoteToASCII(line)))
+		emit(fmt.Sprintf("complete %d %s # %s", pos, c36encodeLine(line), strconv.QuoteToASCII(line)))
 		// keep declaring in the middle of a history: the state a line is completed in keeps changing
 		if i%15 == 14 {
 			if r.Intn(2) == 0 && len(g.types) < len(c36typeNames) {
